@@ -6,6 +6,7 @@ import (
 	"fmt"
 	"os"
 	"path/filepath"
+	"strings"
 
 	"github.com/google/go-eventlog/extract"
 	"github.com/google/go-eventlog/proto/state"
@@ -74,6 +75,39 @@ func tcgScan(log []byte) (offs []int, mrIdx []uint32, end int) {
 		}
 	}
 	return
+}
+
+// c18Sparsify unsets a tape-chosen subset of the policy's expectations, never the one named keep nor
+// mr_seam (which some mismatch constructions fall back to).
+func c18Sparsify(t *core.Tape, o *validate.Options, keep string) {
+	b := &o.TdQuoteBodyOptions
+	fields := []struct {
+		name  string
+		clear func()
+	}{
+		{"qe_vendor_id", func() { o.HeaderOptions.QeVendorID = nil }},
+		{"minimum_qe_svn", func() { o.HeaderOptions.MinimumQeSvn = 0 }},
+		{"minimum_pce_svn", func() { o.HeaderOptions.MinimumPceSvn = 0 }},
+		{"minimum_tee_tcb_svn", func() { b.MinimumTeeTcbSvn = nil }},
+		{"td_attributes", func() { b.TdAttributes = nil }},
+		{"xfam", func() { b.Xfam = nil }},
+		{"mr_td", func() { b.MrTd = nil }},
+		{"any_mr_td", func() { b.AnyMrTd = nil }},
+		{"mr_config_id", func() { b.MrConfigID = nil }},
+		{"mr_owner", func() { b.MrOwner = nil }},
+		{"mr_owner_config", func() { b.MrOwnerConfig = nil }},
+		{"report_data", func() { b.ReportData = nil }},
+		{"rtmr0", func() { b.Rtmrs[0] = nil }},
+		{"rtmr1", func() { b.Rtmrs[1] = nil }},
+		{"rtmr2", func() { b.Rtmrs[2] = nil }},
+		{"rtmr3", func() { b.Rtmrs[3] = nil }},
+	}
+	for _, f := range fields {
+		drop := t.Chance(2, 3)
+		if drop && !strings.HasPrefix(keep, f.name) {
+			f.clear()
+		}
+	}
 }
 
 // tcgEvent2 encodes one crypto-agile event with a single SHA-384 digest.
@@ -150,6 +184,21 @@ func c18Run(r *core.Run) {
 		}
 	}
 
+	// a failing gate fails whatever the event log is: the sample log, an empty or absent one, a cut one
+	altLogs := []struct {
+		name string
+		log  []byte
+	}{{"empty-log", []byte{}}, {"nil-log", nil}, {"cut-log", ccel[:len(ccel)/3]}}
+	gateFail := func(item, kind, why string, qq *world.Quote, mk func() *validate.Options, lvl int, pool bool) {
+		st, o := call(qq, mk(), lvl, pool, ccel)
+		judge(item, kind, true, why, st, o)
+		for _, al := range altLogs {
+			st, o := call(qq, mk(), lvl, pool, al.log)
+			judge(item+"+"+al.name, kind+"+"+al.name, true, why+" (event log: "+al.name+")", st, o)
+		}
+		r.Probe("failing_gate_with_other_event_logs")
+	}
+
 	// control: everything honest
 	if r.Item("control:honest") {
 		st, o := call(q, noPolicy(), O0, true, ccel)
@@ -199,8 +248,7 @@ func c18Run(r *core.Run) {
 		}
 		x := q.Clone()
 		vf.f(x)
-		st, o := call(x, noPolicy(), vf.lvl, vf.pool, ccel)
-		judge("verify-gate:"+vf.name, "verification-gate:"+vf.name, true, "the quote does not pass verification ("+vf.name+")", st, o)
+		gateFail("verify-gate:"+vf.name, "verification-gate:"+vf.name, "the quote does not pass verification ("+vf.name+")", x, noPolicy, vf.lvl, vf.pool)
 		r.Fault("gate:verification:"+vf.name, true)
 		r.State("verify-gate %s", vf.name)
 		r.EndItem()
@@ -222,6 +270,8 @@ func c18Run(r *core.Run) {
 		{"mr_owner_config", func(o *validate.Options) { flip(o.TdQuoteBodyOptions.MrOwnerConfig) }},
 		{"report_data", func(o *validate.Options) { flip(o.TdQuoteBodyOptions.ReportData) }},
 		{"rtmr0", func(o *validate.Options) { flip(o.TdQuoteBodyOptions.Rtmrs[0]) }},
+		{"rtmr1", func(o *validate.Options) { flip(o.TdQuoteBodyOptions.Rtmrs[1]) }},
+		{"rtmr2", func(o *validate.Options) { flip(o.TdQuoteBodyOptions.Rtmrs[2]) }},
 		{"rtmr3", func(o *validate.Options) { flip(o.TdQuoteBodyOptions.Rtmrs[3]) }},
 		{"any_mr_td", func(o *validate.Options) {
 			o.TdQuoteBodyOptions.AnyMrTd = [][]byte{t.Bytes(48), t.Bytes(48)}
@@ -277,8 +327,14 @@ func c18Run(r *core.Run) {
 		}
 		o := full()
 		p.f(o)
-		st, out := call(q, o, O0, true, ccel)
-		judge("policy-gate:"+p.name, "policy-gate:"+p.name, true, "the policy expectation "+p.name+" is not met", st, out)
+		gateFail("policy-gate:"+p.name, "policy-gate:"+p.name, "the policy expectation "+p.name+" is not met", q, func() *validate.Options { return o }, O0, true)
+		// the same mismatch in a sparse policy: a tape-chosen subset of the OTHER expectations left unset
+		// (an unset RTMR entry keeps its place in the list of four)
+		sp := full()
+		c18Sparsify(t, sp, p.name)
+		p.f(sp)
+		st, out := call(q, sp, O0, true, ccel)
+		judge("policy-gate-sparse:"+p.name, "policy-gate-sparse:"+p.name, true, "the policy expectation "+p.name+" is not met (other expectations partly unset)", st, out)
 		r.Fault("gate:policy:"+p.name, true)
 		r.State("policy-gate %s", p.name)
 		r.EndItem()
@@ -406,6 +462,6 @@ func init() {
 			return 12
 		},
 		Run:       c18Run,
-		MustProbe: []string{"honest_combination_returns_state", "measured_rtmr_bitflip_resigned", "log_digest_bitflip", "log_extended_with_rtmr3_event", "rtmr3_measured_bitflip"},
+		MustProbe: []string{"honest_combination_returns_state", "measured_rtmr_bitflip_resigned", "log_digest_bitflip", "log_extended_with_rtmr3_event", "rtmr3_measured_bitflip", "failing_gate_with_other_event_logs"},
 	})
 }
